@@ -73,10 +73,19 @@ var specs = []spec{
 	{Pkg: "internal/loadbalancer", Recv: "", Name: "jumpHash", Exact: true},
 	{Pkg: "internal/utils", Recv: "", Name: "GetClientIP", View: map[string]bool{"r": true}, ByteStr: true},
 	{Pkg: "internal/adminapi", Recv: "IPFilter", Name: "IsAllowed", ByteStr: true},
+	{Pkg: "internal/logging", Recv: "", Name: "validHeaderFieldName", ByteStr: true},
 	{Pkg: "internal/loadbalancer", Recv: "Backend", Name: "eligible"},
 	{Pkg: "internal/loadbalancer", Recv: "Backend", Name: "GetActiveConnections"},
 	{Pkg: "internal/loadbalancer", Recv: "LeastConnectionsStrategy", Name: "NextBackend", LeanName: "lcNextBackend"},
 	{Pkg: "internal/loadbalancer", Recv: "RoundRobinStrategy", Name: "NextBackend", LeanName: "rrNextBackend"},
+	{Pkg: "internal/loadbalancer", Recv: "RoundRobinStrategy", Name: "AddBackend", LeanName: "rrAddBackend"},
+	{Pkg: "internal/loadbalancer", Recv: "LeastConnectionsStrategy", Name: "AddBackend", LeanName: "lcAddBackend"},
+	{Pkg: "internal/loadbalancer", Recv: "IPHashStrategy", Name: "AddBackend", LeanName: "ipAddBackend"},
+	{Pkg: "internal/loadbalancer", Recv: "IPHashConsistentStrategy", Name: "AddBackend", LeanName: "ipcAddBackend"},
+	{Pkg: "internal/loadbalancer", Recv: "RoundRobinStrategy", Name: "RemoveBackend", LeanName: "rrRemoveBackend"},
+	{Pkg: "internal/loadbalancer", Recv: "IPHashConsistentStrategy", Name: "RemoveBackend", LeanName: "ipcRemoveBackend"},
+	{Pkg: "internal/loadbalancer", Recv: "IPHashStrategy", Name: "RemoveBackend", LeanName: "ipRemoveBackend"},
+	{Pkg: "internal/loadbalancer", Recv: "LeastConnectionsStrategy", Name: "RemoveBackend", LeanName: "lcRemoveBackend"},
 	{Pkg: "internal/loadbalancer", Recv: "IPHashStrategy", Name: "NextBackend", LeanName: "ipNextBackend", View: map[string]bool{"r": true}, ByteStr: true, Join: true},
 	{Pkg: "internal/loadbalancer", Recv: "IPHashConsistentStrategy", Name: "NextBackend", LeanName: "ipcNextBackend", View: map[string]bool{"r": true}, ByteStr: true, Join: true},
 	{Pkg: "internal/loadbalancer", Recv: "LoadBalancer", Name: "MarkBackendUnhealthy"},
@@ -266,6 +275,9 @@ func leanType(t types.Type, exact bool) (string, bool) {
 				}
 				return "", false
 			}
+			if byteStr && v.Kind() == types.Uint8 {
+				return "UInt8", true // a byte of a string
+			}
 			if v.Info()&types.IsUnsigned != 0 {
 				return "Nat", true
 			}
@@ -378,6 +390,8 @@ type fn struct {
 	hoisted   map[*ast.CallExpr]string // atomic.AddX(&s.f, d) inside an expression: done before it, read as s.f
 	asserted  map[types.Object]stateVar // f in `f, ok := x.ResponseWriter.(http.Flusher)`
 	hashObjs  map[types.Object]bool     // h in `h := fnv.New32a()`: the bytes written to it so far
+	usesPtrEq bool                      // the body compares two object pointers
+	ptrEqType string
 	viewPars []param                 // the value parameters those reads became
 }
 
@@ -743,6 +757,17 @@ func (f *fn) expr(e ast.Expr) string {
 			}
 			return f.fail(v, "nil comparison of %s", exprText(v.X))
 		}
+		if (v.Op == token.EQL || v.Op == token.NEQ) && ptrStruct(f.typeOf(v.X)) != nil && ptrStruct(f.typeOf(v.Y)) != nil {
+			// identity of two objects: records have no identity of their own, so the comparison is a parameter of
+			// the translated function (the theorems say what they assume of it)
+			f.usesPtrEq = true
+			f.ptrEqType = needStruct(ptrStruct(f.typeOf(v.X)))
+			r := "(ptrEq " + f.expr(v.X) + " " + f.expr(v.Y) + ")"
+			if v.Op == token.NEQ {
+				r = "(!" + r + ")"
+			}
+			return r
+		}
 		x, y := f.expr(v.X), f.expr(v.Y)
 		xt, yt := f.lt(v.X), f.lt(v.Y)
 		// an untyped constant takes the other operand's type
@@ -817,7 +842,11 @@ func (f *fn) expr(e ast.Expr) string {
 				}
 			}
 		}
-		if _, isSlice := f.typeOf(v.X).Underlying().(*types.Slice); isSlice {
+		_, isSlice := f.typeOf(v.X).Underlying().(*types.Slice)
+		if byteStr && f.lt(v.X) == "Bytes" {
+			isSlice = true // s[i] on a string: its i-th byte
+		}
+		if isSlice {
 			switch f.lt(v.Index) {
 			case "Nat":
 				return "(listGet " + f.expr(v.X) + " " + f.expr(v.Index) + ")"
@@ -1030,6 +1059,10 @@ func (f *fn) callExpr(c *ast.CallExpr) string {
 				case "strings.TrimSpace":
 					if byteStr {
 						return "(Helios.Addr.trimSpace " + f.expr(c.Args[0]) + ")"
+					}
+				case "strings.IndexByte":
+					if byteStr {
+						return "(strIndexByte " + f.expr(c.Args[0]) + " " + f.expr(c.Args[1]) + ")"
 					}
 				case "strings.Index":
 					if b, ok := f.oneByte(c.Args[1]); ok && byteStr {
@@ -1444,6 +1477,19 @@ func (f *fn) assignPath(v *ast.SelectorExpr, rhs string) (string, bool) {
 func (f *fn) assign(lhs ast.Expr, rhs string, ind string) string {
 	switch v := lhs.(type) {
 	case *ast.IndexExpr:
+		// x.f[i] = rhs on a slice held in a field: the list with that position replaced
+		if sel, ok := v.X.(*ast.SelectorExpr); ok {
+			if _, isSlice := f.typeOf(v.X).Underlying().(*types.Slice); isSlice {
+				idx := f.expr(v.Index)
+				if f.lt(v.Index) == "Int" {
+					idx = "(Int.toNat " + idx + ")"
+				}
+				if st, ok := f.assignPath(sel, "(List.set "+f.expr(v.X)+" "+idx+" "+rhs+")"); ok {
+					f.mutates = true
+					return ind + st + "\n"
+				}
+			}
+		}
 		// m[k] = rhs on a map held in a field
 		if sel, ok := v.X.(*ast.SelectorExpr); ok {
 			if _, isMap := f.typeOf(v.X).Underlying().(*types.Map); isMap {
@@ -1941,9 +1987,10 @@ func (f *fn) block(list []ast.Stmt, ind string, k cont) string {
 		}
 		return out
 	case *ast.SwitchStmt:
-		if s.Init != nil || s.Tag == nil {
+		if s.Init != nil {
 			return ind + f.fail(s, "switch form")
 		}
+		tagless := s.Tag == nil // `switch { case cond, cond: .. }`: the first clause one of whose conditions holds
 		var def *ast.CaseClause
 		var cases []*ast.CaseClause
 		for _, c := range s.Body.List {
@@ -1968,12 +2015,13 @@ func (f *fn) block(list []ast.Stmt, ind string, k cont) string {
 				return rest(ind)
 			}
 			var conds []string
-			for _, v := range cases[i].List {
-				conds = append(conds, f.expr(&ast.BinaryExpr{X: s.Tag, Op: token.EQL, Y: v}))
-			}
 			// the synthetic comparison has no type info: build it by hand
 			conds = conds[:0]
 			for _, v := range cases[i].List {
+				if tagless {
+					conds = append(conds, f.expr(v))
+					continue
+				}
 				y := f.expr(v)
 				if tv, ok := f.l.info.Types[v]; ok && tv.Value != nil {
 					y = constLit(tv.Value, f.lt(s.Tag))
@@ -2302,6 +2350,20 @@ func (f *fn) rangeLoop(s *ast.RangeStmt, ind string, k cont) string {
 	noteAssigned := func(e ast.Expr, define bool) {
 		id, ok := e.(*ast.Ident)
 		if !ok {
+			// a field (or an element of a field) of a tracked object: the objects travel through the recursion
+			base := e
+			for {
+				if se, isSel := base.(*ast.SelectorExpr); isSel {
+					base = se.X
+				} else if ie, isIdx := base.(*ast.IndexExpr); isIdx {
+					base = ie.X
+				} else {
+					break
+				}
+			}
+			if _, isSt := f.isState(base); isSt {
+				return
+			}
 			bad = true
 			return
 		}
@@ -2341,6 +2403,40 @@ func (f *fn) rangeLoop(s *ast.RangeStmt, ind string, k cont) string {
 		}
 		return true
 	})
+	// the loop walks the slice as it was when the loop began (Go copies the slice header), but writes to its elements
+	// land in the shared array and WOULD be seen by later iterations: accepted only where the block that writes leaves
+	// the function (`xs[i] = ..; xs = xs[:n]; return`)
+	rangedText := exprText(s.X)
+	var checkBlocks func(list []ast.Stmt)
+	checkBlocks = func(list []ast.Stmt) {
+		writes := false
+		for _, st := range list {
+			if as, ok := st.(*ast.AssignStmt); ok {
+				for _, l := range as.Lhs {
+					t := exprText(l)
+					if ie, isIdx := l.(*ast.IndexExpr); isIdx {
+						t = exprText(ie.X)
+					}
+					if t == rangedText {
+						writes = true
+					}
+				}
+			}
+			ast.Inspect(st, func(n ast.Node) bool {
+				if b, ok := n.(*ast.BlockStmt); ok {
+					checkBlocks(b.List)
+					return false
+				}
+				return true
+			})
+		}
+		if writes {
+			if _, ok := list[len(list)-1].(*ast.ReturnStmt); !ok {
+				bad = true
+			}
+		}
+	}
+	checkBlocks(s.Body.List)
 	if bad || f.retWrap != "" {
 		return ind + f.fail(s, "range body form")
 	}
@@ -2467,6 +2563,18 @@ func (f *fn) rangeLoop(s *ast.RangeStmt, ind string, k cont) string {
 				ctup, ctyp = cnames[0], ctypes[0]
 			}
 			f.mutates = true
+		}
+	}
+	if f.usesPtrEq {
+		has := false
+		for _, n := range fnames {
+			if n == "ptrEq" {
+				has = true
+			}
+		}
+		if !has {
+			fargs = append([]string{"(ptrEq : " + f.ptrEqType + " → " + f.ptrEqType + " → Bool)"}, fargs...)
+			fnames = append([]string{"ptrEq"}, fnames...)
 		}
 	}
 	if f.usesNow {
@@ -2770,6 +2878,9 @@ func (f *fn) translate() string {
 	var sig []string
 	if f.hasLoop {
 		sig = append(sig, "(fuel : Nat)")
+	}
+	if f.usesPtrEq {
+		sig = append(sig, "(ptrEq : "+f.ptrEqType+" → "+f.ptrEqType+" → Bool)")
 	}
 	for _, s := range f.stateVar {
 		sig = append(sig, "("+ident(s.name)+" : "+s.lean+")")
